@@ -19,7 +19,7 @@ theorem evpInv_init (ts : List EVT) (h : ∀ t ∈ ts, t.todo = []) : EVPInv (EV
   · intro t ht e he
     simp [h t ht] at he
 
-theorem evicted_mono (s : EV) (slot e : Nat) (hne : s.evicted slot = false) (he : s.evicted e = true) :
+theorem evicted_mono (s : EV) (slot e : Int) (hne : s.evicted slot = false) (he : s.evicted e = true) :
     ({ s with last := some slot } : EV).evicted e = true := by
   cases hl : s.last with
   | none => simp [EV.evicted, hl] at he
@@ -177,31 +177,20 @@ theorem evpInv_step (a b : Cfg EV EVT) (h : EVPInv a) (hs : Step evSys a b) : EV
               intro l hl
               simp [EV.evicted, hl] at hne'
               omega
-            have hstart : ∀ e, s.evicted e = false → s.start ≤ e := by
-              intro e he
-              cases hl : s.last with
-              | none => simp [EV.start, hl]
-              | some l => simp [EV.evicted, EV.start, hl] at he ⊢; omega
             refine ⟨?_, ?_, ?_, ?_⟩
             · intro e he
               simp only [List.mem_filter] at he
-              have h1 := hstart e (h.above e he.1)
-              have h2 := he.2
-              clear he
               simp only [EV.evicted]
-              simp at h2 ⊢
-              rcases h2 with h2 | h2 <;> omega
+              simpa using he.2
             · intro x
               rw [h.handed x, hother x]
-              simp only [List.mem_filter, List.mem_range'_1]
+              simp only [List.mem_filter]
               constructor
               · rintro (h1 | h1 | ⟨u, hu, hx⟩)
                 · by_cases hr : x ≤ slot
-                  · have := hstart x (h.above x h1)
-                    refine Or.inr (Or.inr ⟨_, (hmemT' _).2 (Or.inr (Or.inl rfl)), ?_⟩)
-                    simp only [List.mem_filter, List.mem_range'_1]
-                    exact ⟨⟨this, by omega⟩, by simpa using h1⟩
-                  · exact Or.inl ⟨h1, by simp; omega⟩
+                  · refine Or.inr (Or.inr ⟨_, (hmemT' _).2 (Or.inr (Or.inl rfl)), ?_⟩)
+                    exact (mem_evFire _ _ _).2 ⟨h1, hr⟩
+                  · exact Or.inl ⟨h1, by simpa using hr⟩
                 · exact Or.inr (Or.inl h1)
                 · rcases hu with hu | hu
                   · exact Or.inr (Or.inr ⟨u, (hmemT' u).2 (Or.inl hu), hx⟩)
@@ -211,18 +200,16 @@ theorem evpInv_step (a b : Cfg EV EVT) (h : EVPInv a) (hs : Step evSys a b) : EV
                 · exact Or.inr (Or.inl h1)
                 · rcases (hmemT' u).1 hu with hu | rfl | hu
                   · exact Or.inr (Or.inr ⟨u, Or.inl hu, hx⟩)
-                  · simp only [List.mem_filter] at hx
-                    exact Or.inl (by simpa using hx.2)
+                  · exact Or.inl ((mem_evFire _ _ _).1 hx).1
                   · exact Or.inr (Or.inr ⟨u, Or.inr hu, hx⟩)
             · intro e he
               exact evicted_mono s slot e hne' (h.below e he)
             · intro u hu x hx
               rcases (hmemT' u).1 hu with hu | rfl | hu
               · exact evicted_mono s slot x hne' (h.pending u ((hmemT u).2 (Or.inl hu)) x hx)
-              · simp only [List.mem_filter, List.mem_range'_1] at hx
+              · have := ((mem_evFire _ _ _).1 hx).2
                 simp only [EV.evicted]
-                simp
-                omega
+                simpa using this
               · exact evicted_mono s slot x hne' (h.pending u ((hmemT u).2 (Or.inr (Or.inr hu))) x hx)
 
 theorem evpInv_reach (ts : List EVT) (h0 : ∀ t ∈ ts, t.todo = []) (c : Cfg EV EVT)
